@@ -51,6 +51,8 @@ def limit_spellings(value):
         result += [name, name.title(), name.upper()]
     if 32 < value < 0x110000 and value not in (34, 39, 92) and not (0xD800 <= value < 0xE000) and chr(value).isprintable():
         result += ["'%s'" % chr(value), '"%s"' % chr(value)]
+    if value in (9, 0xA0, 0x2003, 0x3000):  # white space other than the blank, written literally between quotes
+        result += ["'%s'" % chr(value), '"%s"' % chr(value)]
     if value == 34:  # the quote characters and the backslash: inside the other kind of quotes, or escaped
         result += ["'\"'", '"\\""']
     elif value == 39:
